@@ -67,6 +67,12 @@ theorem node?_none {fs : FS} {k : Bytes} (h : fs.node? k = none) : fs.get? k = n
   | none => rfl
   | some i => simp [hg] at h
 
+theorem node?_some {fs : FS} {k : Bytes} {x : XNode} (h : fs.node? k = some x) : ∃ i, fs.get? k = some i := by
+  unfold FS.node? at h
+  cases hg : fs.get? k with
+  | none => simp [hg] at h
+  | some i => exact ⟨i, rfl⟩
+
 theorem node?_dir {fs : FS} {k : Bytes} (h : fs.node? k = some .dir) : ∃ i, fs.get? k = some i ∧ (fs.ino i).kind = .dir := by
   unfold FS.node? at h
   cases hg : fs.get? k with
@@ -92,6 +98,106 @@ theorem node?_file {fs : FS} (hp : TreeOK [] fs) {k : Bytes} {d : Bytes} (h : fs
 
 theorem addFuel_eq : addFuel = 4094 + 2 := rfl
 
+/-- One member with a defined extraction: `addMembers` goes on from a
+    tree-consistent view that presents the reference with the member inserted. -/
+theorem member_step (m : Member) (ms : List Member) (fs : FS) (t t2 : XTree)
+    (h : TreeOK [] fs) (hrep : Rep [] fs t) (hins : xInsert t m = some t2) :
+    ∃ fs2, addMembers fs [] (m :: ms) = addMembers fs2 [] ms ∧ TreeOK [] fs2 ∧ Rep [] fs2 t2 := by
+  have hn : Contained (normPath m.name) := contained_normPath _
+  have hnode := hrep (normPath m.name) (by simp)
+  unfold xInsert at hins
+  simp only at hins
+  generalize hnn : normPath m.name = n at hins hn hnode
+  cases hk : m.kind with
+  | dir =>
+    simp only [hk] at hins
+    cases hget : alGet t n with
+    | some node =>
+      simp only [hget, Option.some.injEq] at hins
+      subst hins
+      rw [hget] at hnode
+      obtain ⟨i, hi⟩ := node?_some hnode
+      refine ⟨fs, ?_, h, hrep⟩
+      simp [addMembers, prepMember, hk, hnn, hi]
+    | none =>
+      simp only [hget] at hins
+      rw [hget] at hnode
+      have hfresh := node?_none hnode
+      have hnd : n ≠ dotP := by
+        intro e; rw [e, h.root] at hfresh; cases hfresh
+      obtain ⟨init, c, hg, hu, rfl⟩ := contained_comps hn hnd
+      rw [prefixesOf_eq hg, xMkdirs_append] at hins
+      cases hA : xMkdirs t (prefixesAux [] true init) with
+      | none => simp [hA] at hins
+      | some tA =>
+        simp only [hA, Option.bind] at hins
+        have hfr : alGet tA (joinSlash (init ++ [c])) = none := by
+          rw [xMkdirs_frame _ _ _ hA _ (not_mem_prefixes hg), hget]
+        simp only [xMkdirs, hfr, Option.some.injEq] at hins
+        subst hins
+        obtain ⟨fs', hadd, hT, hR⟩ := add_member_fresh 4094 (fs := fs) (t := t) (t1 := tA)
+          (ino := { kind := .dir, name := joinSlash (init ++ [c]), link := m.link, children := some [], data := some [] })
+          [] true h hrep hg hu hfresh (Or.inl ⟨rfl, rfl⟩) hA
+        refine ⟨fs', ?_, hT, hR⟩
+        have hprep : prepMember fs m = some { kind := .dir, name := joinSlash (init ++ [c]), link := m.link, children := some [], data := some [] } := by
+          simp [prepMember, hk, hnn, hfresh]
+        rw [addMembers, hprep]
+        simp only
+        rw [addFuel_eq, hadd]
+        simp [alDel]
+  | reg =>
+    simp only [hk] at hins
+    split at hins
+    · cases hins
+    · rename_i hnd
+      obtain ⟨init, c, hg, hu, rfl⟩ := contained_comps hn hnd
+      rw [prefixesOf_dropLast hg] at hins
+      cases hA : xMkdirs t (prefixesAux [] true init) with
+      | none => simp [hA] at hins
+      | some tA =>
+        simp only [hA] at hins
+        have hfr : alGet tA (joinSlash (init ++ [c])) = alGet t (joinSlash (init ++ [c])) :=
+          xMkdirs_frame _ _ _ hA _ (not_mem_prefixes hg)
+        have hprep : prepMember fs m = some { kind := .reg, name := joinSlash (init ++ [c]), link := m.link, children := none, data := some m.data } := by
+          simp [prepMember, hk, hnn]
+        cases hget : alGet t (joinSlash (init ++ [c])) with
+        | none =>
+          rw [hfr, hget] at hins
+          simp only [Option.some.injEq] at hins
+          subst hins
+          rw [hget] at hnode
+          have hfresh := node?_none hnode
+          obtain ⟨fs', hadd, hT, hR⟩ := add_member_fresh 4094 (fs := fs) (t := t) (t1 := tA)
+            (ino := { kind := .reg, name := joinSlash (init ++ [c]), link := m.link, children := none, data := some m.data })
+            [] true h hrep hg hu hfresh (Or.inr ⟨rfl, rfl, m.data, rfl⟩) hA
+          refine ⟨fs', ?_, hT, hR⟩
+          rw [addMembers, hprep]
+          simp only
+          rw [addFuel_eq, hadd]
+          simp [alDel]
+        | some node =>
+          rw [hfr, hget] at hins
+          cases node with
+          | dir => simp at hins
+          | file d =>
+            simp only [Option.some.injEq] at hins
+            subst hins
+            rw [hget] at hnode
+            obtain ⟨i, hi, hik, _⟩ := node?_file h hnode
+            have hAt := xMkdirs_existing h hrep hg hi
+            rw [hAt] at hA
+            cases hA
+            obtain ⟨fs', hadd, hT, hR⟩ := add_member_replace 4095 (fs := fs) (t := t)
+              (ino := { kind := .reg, name := joinSlash (init ++ [c]), link := m.link, children := none, data := some m.data })
+              [] true h hrep hg hu hi hik ⟨rfl, rfl, m.data, rfl⟩
+            refine ⟨fs', ?_, hT, hR⟩
+            rw [addMembers, hprep]
+            simp only
+            rw [show addFuel = 4095 + 1 from rfl, hadd]
+  | sym => simp [hk] at hins
+  | link => simp [hk] at hins
+  | special => simp [hk] at hins
+
 /-- The members of a link-free archive, one after the other. -/
 theorem addMembers_plain : ∀ (ms : List Member) (fs : FS) (t t' : XTree),
     TreeOK [] fs → Rep [] fs t → extractFrom t ms = some t' →
@@ -110,109 +216,9 @@ theorem addMembers_plain : ∀ (ms : List Member) (fs : FS) (t t' : XTree),
     | none => simp [hins] at hx
     | some t2 =>
       simp only [hins] at hx
-      -- it suffices to do this member
-      suffices hstep : ∃ fs2, addMembers fs [] (m :: ms) = addMembers fs2 [] ms ∧ TreeOK [] fs2 ∧ Rep [] fs2 t2 by
-        obtain ⟨fs2, he, h2, hrep2⟩ := hstep
-        obtain ⟨fs', hfs', hT, hR⟩ := ih fs2 t2 t' h2 hrep2 hx
-        exact ⟨fs', by rw [he, hfs'], hT, hR⟩
-      have hn : Contained (normPath m.name) := contained_normPath _
-      have hnode := hrep (normPath m.name) (by simp)
-      unfold xInsert at hins
-      simp only at hins
-      generalize hnn : normPath m.name = n at hins hn hnode
-      cases hk : m.kind with
-      | dir =>
-        simp only [hk] at hins
-        cases hget : alGet t n with
-        | some node =>
-          cases node with
-          | dir =>
-            simp only [hget, Option.some.injEq] at hins
-            subst hins
-            rw [hget] at hnode
-            obtain ⟨i, hi, _⟩ := node?_dir hnode
-            refine ⟨fs, ?_, h, hrep⟩
-            simp [addMembers, prepMember, hk, hnn, hi]
-          | file d => simp [hget] at hins
-        | none =>
-          simp only [hget] at hins
-          rw [hget] at hnode
-          have hfresh := node?_none hnode
-          have hnd : n ≠ dotP := by
-            intro e; rw [e, h.root] at hfresh; cases hfresh
-          obtain ⟨init, c, hg, hu, rfl⟩ := contained_comps hn hnd
-          rw [prefixesOf_eq hg, xMkdirs_append] at hins
-          cases hA : xMkdirs t (prefixesAux [] true init) with
-          | none => simp [hA] at hins
-          | some tA =>
-            simp only [hA, Option.bind] at hins
-            have hfr : alGet tA (joinSlash (init ++ [c])) = none := by
-              rw [xMkdirs_frame _ _ _ hA _ (not_mem_prefixes hg), hget]
-            simp only [xMkdirs, hfr, Option.some.injEq] at hins
-            subst hins
-            obtain ⟨fs', hadd, hT, hR⟩ := add_member_fresh 4094 (fs := fs) (t := t) (t1 := tA)
-              (ino := { kind := .dir, name := joinSlash (init ++ [c]), link := m.link, children := some [], data := some [] })
-              [] true h hrep hg hu hfresh (Or.inl ⟨rfl, rfl⟩) hA
-            refine ⟨fs', ?_, hT, hR⟩
-            have hprep : prepMember fs m = some { kind := .dir, name := joinSlash (init ++ [c]), link := m.link, children := some [], data := some [] } := by
-              simp [prepMember, hk, hnn, hfresh]
-            rw [addMembers, hprep]
-            simp only
-            rw [addFuel_eq, hadd]
-            simp [alDel]
-      | reg =>
-        simp only [hk] at hins
-        split at hins
-        · cases hins
-        · rename_i hnd
-          obtain ⟨init, c, hg, hu, rfl⟩ := contained_comps hn hnd
-          rw [prefixesOf_dropLast hg] at hins
-          cases hA : xMkdirs t (prefixesAux [] true init) with
-          | none => simp [hA] at hins
-          | some tA =>
-            simp only [hA] at hins
-            have hfr : alGet tA (joinSlash (init ++ [c])) = alGet t (joinSlash (init ++ [c])) :=
-              xMkdirs_frame _ _ _ hA _ (not_mem_prefixes hg)
-            have hprep : prepMember fs m = some { kind := .reg, name := joinSlash (init ++ [c]), link := m.link, children := none, data := some m.data } := by
-              simp [prepMember, hk, hnn]
-            cases hget : alGet t (joinSlash (init ++ [c])) with
-            | none =>
-              rw [hfr, hget] at hins
-              simp only [Option.some.injEq] at hins
-              subst hins
-              rw [hget] at hnode
-              have hfresh := node?_none hnode
-              obtain ⟨fs', hadd, hT, hR⟩ := add_member_fresh 4094 (fs := fs) (t := t) (t1 := tA)
-                (ino := { kind := .reg, name := joinSlash (init ++ [c]), link := m.link, children := none, data := some m.data })
-                [] true h hrep hg hu hfresh (Or.inr ⟨rfl, rfl, m.data, rfl⟩) hA
-              refine ⟨fs', ?_, hT, hR⟩
-              rw [addMembers, hprep]
-              simp only
-              rw [addFuel_eq, hadd]
-              simp [alDel]
-            | some node =>
-              rw [hfr, hget] at hins
-              cases node with
-              | dir => simp at hins
-              | file d =>
-                simp only [Option.some.injEq] at hins
-                subst hins
-                rw [hget] at hnode
-                obtain ⟨i, hi, hik, _⟩ := node?_file h hnode
-                have hAt := xMkdirs_existing h hrep hg hi
-                rw [hAt] at hA
-                cases hA
-                obtain ⟨fs', hadd, hT, hR⟩ := add_member_replace 4095 (fs := fs) (t := t)
-                  (ino := { kind := .reg, name := joinSlash (init ++ [c]), link := m.link, children := none, data := some m.data })
-                  [] true h hrep hg hu hi hik ⟨rfl, rfl, m.data, rfl⟩
-                refine ⟨fs', ?_, hT, hR⟩
-                rw [addMembers, hprep]
-                simp only
-                rw [show addFuel = 4095 + 1 from rfl, hadd]
-      | sym => simp [hk] at hins
-      | link => simp [hk] at hins
-      | special => simp [hk] at hins
-
+      obtain ⟨fs2, he, h2, hrep2⟩ := member_step m ms fs t t2 h hrep hins
+      obtain ⟨fs', hfs', hT, hR⟩ := ih fs2 t2 t' h2 hrep2 hx
+      exact ⟨fs', by rw [he, hfs'], hT, hR⟩
 
 theorem rootFS_treeOK : TreeOK [] rootFS := by
   have hget : ∀ k i, rootFS.get? k = some i → k = dotP ∧ i = 0 := by
@@ -377,5 +383,22 @@ theorem entries_sorted (fs : FS) (j : Nat) :
   unfold FS.entries
   exact List.pairwise_mergeSort (le := entryLe)
     (fun a b c hab hbc => bytesLe_trans _ _ _ hab hbc) (fun a b => bytesLe_total _ _) _
+
+
+/-- Glob returns the keys that match, each once per table entry. -/
+theorem mem_globFS (fs : FS) (pat n : Bytes) :
+    n ∈ globFS fs pat ↔ (∃ i, (n, i) ∈ fs.lookup) ∧ matchPat (pat.length + 2) pat n = true := by
+  unfold globFS
+  rw [List.mem_mergeSort, List.mem_filter, List.mem_map]
+  constructor
+  · rintro ⟨⟨⟨k, i⟩, hm, rfl⟩, hp⟩
+    exact ⟨⟨i, hm⟩, hp⟩
+  · rintro ⟨⟨i, hm⟩, hp⟩
+    exact ⟨⟨(n, i), hm, rfl⟩, hp⟩
+
+theorem globFS_sorted (fs : FS) (pat : Bytes) :
+    (globFS fs pat).Pairwise (fun a b => bytesLe a b = true) := by
+  unfold globFS
+  exact List.pairwise_mergeSort (le := bytesLe) bytesLe_trans bytesLe_total _
 
 end ClairModel.TarFS
